@@ -16,7 +16,8 @@
 //   con <hexpenalty> <hexvalue>  constrained_evaluator(ga_evaluator(value), penalty)
 //
 // output line
-//   fit=<hex,...> outs=<value,...> diff=<dec,...> tags=<label>:<hex sureness>,...
+//   fit=<hex,...> outs=<value,...> diff=<dec,...> frame=<0|1> tags=<label>:<hex sureness>,...
+//   THROW outs=... diff=... frame=...   when label() threw std::bad_variant_access
 //   (tags: what a separately built lambda answers for each example, only for
 //    the classification evaluators; outs: what basic_reg_lambda_f answers)
 #include <cstdint>
@@ -209,26 +210,39 @@ int main()
       };
 
       fitness_t f;
-      if (kind == "mae") f = run_eva<mae_evaluator<i_mep>>(d, prg, fast);
-      else if (kind == "rmae") f = run_eva<rmae_evaluator<i_mep>>(d, prg, fast);
-      else if (kind == "mse") f = run_eva<mse_evaluator<i_mep>>(d, prg, fast);
-      else if (kind == "count") f = run_eva<count_evaluator<i_mep>>(d, prg, fast);
-      else if (kind == "binary")
+      bool thrown(false);
+      try
       {
-        add_tags(basic_binary_lambda_f<i_mep, false, false>(prg, d));
-        f = run_eva<binary_evaluator<i_mep>>(d, prg);
+        if (kind == "mae") f = run_eva<mae_evaluator<i_mep>>(d, prg, fast);
+        else if (kind == "rmae") f = run_eva<rmae_evaluator<i_mep>>(d, prg, fast);
+        else if (kind == "mse") f = run_eva<mse_evaluator<i_mep>>(d, prg, fast);
+        else if (kind == "count") f = run_eva<count_evaluator<i_mep>>(d, prg, fast);
+        else if (kind == "binary")
+        {
+          try { add_tags(basic_binary_lambda_f<i_mep, false, false>(prg, d)); }
+          catch (const std::bad_variant_access &) { tags = " tags=THROW"; }
+          f = run_eva<binary_evaluator<i_mep>>(d, prg);
+        }
+        else if (kind == "dynslot")
+        {
+          try { add_tags(basic_dyn_slot_lambda_f<i_mep, false, false>(prg, d, 10)); }
+          catch (const std::bad_variant_access &) { tags = " tags=THROW"; }
+          f = run_eva<dyn_slot_evaluator<i_mep>>(d, prg);
+        }
+        else if (kind == "gaussian")
+        {
+          try { add_tags(basic_gaussian_lambda_f<i_mep, false, false>(prg, d)); }
+          catch (const std::bad_variant_access &) { tags = " tags=THROW"; }
+          f = run_eva<gaussian_evaluator<i_mep>>(d, prg);
+        }
+        else { std::cout << "UNKNOWN\n"; continue; }
       }
-      else if (kind == "dynslot")
+      catch (const std::bad_variant_access &)
       {
-        add_tags(basic_dyn_slot_lambda_f<i_mep, false, false>(prg, d, 10));
-        f = run_eva<dyn_slot_evaluator<i_mep>>(d, prg);
+        // label() on an example whose output cell is not an integer: the
+        // dataset is reported as the evaluator left it
+        thrown = true;
       }
-      else if (kind == "gaussian")
-      {
-        add_tags(basic_gaussian_lambda_f<i_mep, false, false>(prg, d));
-        f = run_eva<gaussian_evaluator<i_mep>>(d, prg);
-      }
-      else { std::cout << "UNKNOWN\n"; continue; }
 
       std::string diff(" diff=");
       {
@@ -254,7 +268,8 @@ int main()
           ++i;
         }
       }
-      std::cout << show_fit(f) << ' ' << outs << diff << " frame=" << (frame ? 1 : 0) << tags << '\n';
+      std::cout << (thrown ? std::string("THROW") : show_fit(f)) << ' ' << outs << diff
+                << " frame=" << (frame ? 1 : 0) << tags << '\n';
     }
     catch (const std::exception &e)
     {
